@@ -3,7 +3,8 @@
 From Coq Require Import ZArith Bool String List.
 From Coq.Strings Require Import Byte.
 From Verif Require Import Lib.Bytes Crypto.Hmac Gen.GenNetworks Gen.GenWalletCfg Model.WalletKeys
-  Proofs.WalletKeys Proofs.WalletKeysBook Proofs.WalletKeysIssue Proofs.WalletKeysTables.
+  Proofs.WalletKeys Proofs.WalletKeysBook Proofs.WalletKeysIssue Proofs.WalletKeysTables Proofs.WalletKeysReach
+  Proofs.WalletKeysPaths.
 Import ListNotations.
 Open Scope Z_scope.
 
@@ -212,6 +213,82 @@ Theorem structure_table_is_the_documented_one : forall wt ms,
   exists v, In (wt, ms, v) spec_structures /\ lib_key_structure wt ms = Some v.
 Proof. exact key_structure_is_frozen. Qed.
 
+
+(* --- a wallet can hand out only what lies below the key material it holds (BIP32).  The book carries the depth and
+       the privacy of the main key; a main key that is not a private master of depth 0 (an account-level key, private
+       or public) lies above one purpose / coin type / account only.  A request for another witness type (another
+       purpose branch) is refused at every entry point, in every state, and nothing is created --- *)
+Theorem request_for_another_witness_type_refused : forall X derive (w : wstate X) upath full lo acct ai chg wt net n,
+  w_root_master (ws_cfg w) = false -> req_wt X w wt <> w_wt (ws_cfg w) -> n <> O ->
+  lib_keys_for_path X derive w upath full lo acct ai chg wt net n = (w, None).
+Proof. exact kfp_refuses_foreign_witness_type. Qed.
+
+Theorem new_key_for_another_witness_type_refused : forall X derive (w : wstate X) acct chg wt net n,
+  w_root_master (ws_cfg w) = false -> req_wt X w wt <> w_wt (ws_cfg w) -> n <> O ->
+  lib_new_keys X derive w acct chg wt net n = (w, None).
+Proof. exact new_keys_refuses_foreign_witness_type. Qed.
+
+Theorem get_key_creates_nothing_for_another_witness_type : forall X derive (w : wstate X) acct chg wt net n w' r,
+  w_root_master (ws_cfg w) = false -> req_wt X w wt <> w_wt (ws_cfg w) ->
+  lib_get_keys X derive w acct chg wt net n = (w', r) ->
+  w' = w /\ forall ks k, r = Some ks -> In k ks -> In k (ws_keys w) /\ k_wt k = req_wt X w wt.
+Proof. exact get_keys_creates_nothing_for_foreign_witness_type. Qed.
+
+Theorem public_master_for_another_witness_type_refused : forall X derive (w : wstate X) acct wt net,
+  w_root_master (ws_cfg w) = false -> req_wt X w wt <> w_wt (ws_cfg w) ->
+  lib_public_master X derive w acct wt net = (w, None).
+Proof. exact public_master_refuses_foreign_witness_type. Qed.
+
+Theorem new_account_needs_the_private_master : forall X derive (w : wstate X) acct wt net,
+  w_root_master (ws_cfg w) = false -> lib_new_account X derive w acct wt net = (w, None).
+Proof. exact new_account_needs_private_master. Qed.
+
+(* --- ... and, for a library with fixes/C09-5 (w_guard_reach; the unchanged library is refuted below: known class
+       account_wallet_foreign_account_or_network), every request whose documented path does not lie below the
+       account-level main key - another witness type, network or account - returns an error and leaves the book as it
+       is, whatever path form, level offset, index or number of keys is asked for --- *)
+Theorem request_outside_reach_refused : forall X derive (w : wstate X) upath full lo acct ai chg wt net n,
+  w_guard_reach (ws_cfg w) = true -> account_level (ws_cfg w) -> n <> O ->
+  ~ within_reach (ws_cfg w) (req_wt X w wt) (req_net X w net acct) (req_acct X w net acct) ->
+  lib_keys_for_path X derive w upath full lo acct ai chg wt net n = (w, None).
+Proof. exact request_outside_reach_refused_lemma. Qed.
+
+(* --- every configuration Wallet.create makes (main key = master, depth 0; = account key, depth 3; private or
+       public; any witness type, network, default account; either library), every reachable state, every request for
+       address keys by witness type / network / account / change / index / number of keys: a key that is handed out
+       lies at the documented path FOR THE REQUESTED witness type, coin type and account, at consecutive indices (bulk
+       creation included); and a key an account-level wallet hands out was asked for with the wallet's own witness
+       type (with fixes/C09-5: own network and account as well) --- *)
+Theorem handed_out_key_is_at_documented_path_for_requested_type :
+  forall X derive net wt acct root rd rp ri w0 g p ops acct' ai chg wt' net' coin n w' ks j k,
+  0 <= rd -> lib_wallet_create X derive net wt acct root rd rp ri = Some w0 ->
+  coin_of net' = Some coin ->
+  lib_keys_for_path X derive (run X derive (set_lib_fixes X w0 g p) ops) [] false None (Some acct') ai chg (Some wt')
+                    (Some net') n = (w', Some ks) ->
+  nth_error ks j = Some k ->
+  k_path k = (if rd =? 0 then spec_path wt' false coin acct' chg (ai + Z.of_nat j) 0
+              else spec_path_rel chg (ai + Z.of_nat j)) /\
+  (rd <> 0 -> wt' = wt /\ (g = true -> net' = net /\ acct' = acct)).
+Proof. exact reachable_handed_out_documented. Qed.
+
+Theorem new_keys_hand_out_documented_paths : forall X derive (w : wstate X) acct chg wt net n coin w' ks,
+  PInv X (ws_keys w) -> wallet_shape (ws_cfg w) -> coin_of (req_net X w net acct) = Some coin ->
+  lib_new_keys X derive w acct chg wt net n = (w', Some ks) ->
+  exists purpose,
+    op_purpose (ws_cfg w) (req_wt X w wt) = Some purpose /\
+    forall j k, nth_error ks j = Some k ->
+      k_path k = doc_path (ws_cfg w) (req_wt X w wt) coin (req_acct X w net acct) chg
+                          (next_index X w purpose (req_net X w net acct) (req_acct X w net acct) (req_wt X w wt) chg
+                           + Z.of_nat j).
+Proof. exact new_keys_documented_paths. Qed.
+
+(* --- in every reachable state ids are unique and the parent_id column of a row names the row one level above it on
+       the same path (bulk creation finds the parent of the first key through it) --- *)
+Theorem parent_column_names_the_row_above : forall X derive net wt acct root rd rp ri w g p ops,
+  lib_wallet_create X derive net wt acct root rd rp ri = Some w ->
+  PInv X (ws_keys (run X derive (set_lib_fixes X w g p) ops)).
+Proof. exact reachable_PInv. Qed.
+
 (* --- non-vacuity --- *)
 Example documented_paths :
   spec_path Segwit false 0 2 1 5 0 = [(84, true); (0, true); (2, true); (1, false); (5, false)] /\
@@ -300,6 +377,81 @@ Example frozen_rows_present :
   coin_of "dogecoin" = Some 3.
 Proof. split; vm_compute; reflexivity. Qed.
 
+
+(* an account-level wallet over dummy key material (main key: depth 3, private; segwit, bitcoin, account 0);
+   [g] = the library has fixes/C09-5 *)
+Definition demo_account_wallet (g : bool) :=
+  option_map (fun w => set_lib_fixes unit w g false)
+             (lib_wallet_create unit (fun _ _ => Some tt) "bitcoin"%string Segwit 0 tt 3 true 0).
+Definition demo_answers (w0 : option (wstate unit)) (ops : list op) : list (option (list (list pelem * string * Z))) :=
+  match w0 with
+  | Some w => snd (fold_left (fun (st : wstate unit * list (option (list (list pelem * string * Z)))) o =>
+                                let r := step unit (fun _ _ => Some tt) (fst st) o in
+                                (fst r, snd st ++ [option_map (map (fun k => (k_path k, k_net k, k_account k))) (snd r)]))
+                             ops (w, []))
+  | None => []
+  end.
+
+(* requests for another witness type: refused at every entry point, by either library (seed class: the guard must
+   look at the DEPTH of the main key, not only at its privacy - this wallet's main key is private) *)
+Example account_wallet_refuses_other_witness_types :
+  demo_answers (demo_account_wallet false)
+    [ONewKeys None 0 (Some P2shSegwit) None 1; ONewKeys None 1 (Some Legacy) None 2; OGetKeys None 0 (Some Legacy) None 1;
+     OKeysForPath [(0, false); (9, false)] false None 0 0 (Some P2shSegwit) None 1;
+     OKeysForPath [] false None 1 4 (Some Legacy) None 3; OPublicMaster None (Some Legacy) None;
+     ONewAccount None None None; ONewKeys None 0 None None 1]
+  = [None; None; None; None; None; None; None; Some [([(0, false); (1, false)], "bitcoin"%string, 0)]] /\
+  account_level (ws_cfg (match demo_account_wallet true with Some w => w | None => {| ws_cfg := {| w_net := ""%string; w_wt := Legacy; w_purpose := 0; w_tpl := []; w_root_depth := 0; w_root_private := true; w_account := 0; w_guard_reach := false; w_acct_from_path := false |}; ws_keys := [] |} end)).
+Proof. split; [vm_compute; reflexivity | split; [discriminate | vm_compute; reflexivity]]. Qed.
+
+(* known class account_wallet_foreign_account_or_network (unchanged library): new_key(account_id=5) hands out the
+   wallet's own M/0/0 - a key that exists already - on every call; key_for_path([0, 9], network='litecoin') stores a
+   litecoin key below the bitcoin account *)
+Example account_wallet_foreign_account_refuted :
+  demo_answers (demo_account_wallet false)
+    [ONewKeys (Some 5) 0 None None 1; ONewKeys (Some 5) 0 None None 1;
+     OKeysForPath [(0, false); (9, false)] false None 0 0 None (Some "litecoin"%string) 1]
+  = [Some [([(0, false); (0, false)], "bitcoin"%string, 0)]; Some [([(0, false); (0, false)], "bitcoin"%string, 0)];
+     Some [([(0, false); (9, false)], "litecoin"%string, 0)]].
+Proof. vm_compute. reflexivity. Qed.
+
+(* ... with fixes/C09-5 the same requests are refused, the wallet's own account is served *)
+Example account_wallet_foreign_account_refused_when_fixed :
+  demo_answers (demo_account_wallet true)
+    [ONewKeys (Some 5) 0 None None 1; OGetKeys (Some 5) 0 None None 1;
+     OKeysForPath [(0, false); (9, false)] false None 0 0 None (Some "litecoin"%string) 1;
+     OKeysForPath [] false (Some 5) 0 3 None None 2; OPublicMaster (Some 5) None None;
+     ONewKeys (Some 0) 0 None None 1]
+  = [None; None; None; None; None; Some [([(0, false); (1, false)], "bitcoin"%string, 0)]].
+Proof. vm_compute. reflexivity. Qed.
+
+(* known class explicit_path_account_column (unchanged library): on a wallet whose default account is 2, the key at
+   m/84'/0'/7'/0/0 named by a relative path is stored under account 2, and new_key(account_id=7) hands it out again;
+   with fixes/C09-6 it is account 7's first key and new_key(account_id=7) continues with index 1 *)
+Definition demo_master_wallet (p : bool) :=
+  option_map (fun w => set_lib_fixes unit w false p)
+             (lib_wallet_create unit (fun _ _ => Some tt) "bitcoin"%string Segwit 2 tt 0 true 0).
+Example explicit_path_account_column_refuted :
+  demo_answers (demo_master_wallet false)
+    [OKeysForPath [(7, false); (0, false); (0, false)] false None 0 0 None None 1; ONewKeys (Some 7) 0 None None 1]
+  = [Some [([(84, true); (0, true); (7, true); (0, false); (0, false)], "bitcoin"%string, 2)];
+     Some [([(84, true); (0, true); (7, true); (0, false); (0, false)], "bitcoin"%string, 2)]] /\
+  demo_answers (demo_master_wallet true)
+    [OKeysForPath [(7, false); (0, false); (0, false)] false None 0 0 None None 1; ONewKeys (Some 7) 0 None None 1]
+  = [Some [([(84, true); (0, true); (7, true); (0, false); (0, false)], "bitcoin"%string, 7)];
+     Some [([(84, true); (0, true); (7, true); (0, false); (1, false)], "bitcoin"%string, 7)]].
+Proof. split; vm_compute; reflexivity. Qed.
+
+(* a master wallet answers a request for another witness type, network and account at THAT documented path, at
+   consecutive indices *)
+Example master_wallet_answers_at_the_requested_path :
+  demo_answers (demo_master_wallet false)
+    [ONewKeys (Some 4) 1 (Some P2shSegwit) (Some "litecoin"%string) 2; OAccount 2; OAccount 9]
+  = [Some [(spec_path P2shSegwit false 2 4 1 0 0, "litecoin"%string, 4);
+           (spec_path P2shSegwit false 2 4 1 1 0, "litecoin"%string, 4)];
+     Some [([(84, true); (0, true); (2, true)], "bitcoin"%string, 2)]; None].
+Proof. vm_compute. reflexivity. Qed.
+
 Print Assumptions path_is_documented.
 Print Assumptions structure_table_total.
 Print Assumptions account_level_path_is_documented.
@@ -329,3 +481,12 @@ Print Assumptions network_tables_are_the_documented_ones.
 Print Assumptions coin_type_lookup_is_documented.
 Print Assumptions structure_table_is_the_documented_one.
 Print Assumptions multisig_single_new_key_is_fresh.
+Print Assumptions request_for_another_witness_type_refused.
+Print Assumptions new_key_for_another_witness_type_refused.
+Print Assumptions get_key_creates_nothing_for_another_witness_type.
+Print Assumptions public_master_for_another_witness_type_refused.
+Print Assumptions new_account_needs_the_private_master.
+Print Assumptions request_outside_reach_refused.
+Print Assumptions handed_out_key_is_at_documented_path_for_requested_type.
+Print Assumptions new_keys_hand_out_documented_paths.
+Print Assumptions parent_column_names_the_row_above.
